@@ -126,6 +126,8 @@ var xlDomWhitelist = []xlFunc{
 	{Pkg: "dom", Recv: "listBuilderImpl", Name: "Clear", Lean: "listBuilderClear", Acc: "$recv"},
 	{Pkg: "dom", Recv: "listBuilderImpl", Name: "MustSet", Lean: "listBuilderMustSet", Acc: "$recv"},
 	{Pkg: "dom", Recv: "listBuilderImpl", Name: "Set", Lean: "listBuilderSet", Acc: "$recv", Fuel: []string{"int($1)+2"}},
+	{Pkg: "dom", Name: "ListNode", Lean: "ListNode"},
+	{Pkg: "dom", Recv: "containerBuilderImpl", Name: "Remove", Lean: "containerBuilderRemove", Acc: "$recv"},
 }
 
 func genFuncsDom(repo string) (string, error) {
@@ -711,6 +713,24 @@ func (x *xl) domSimple(s ast.Stmt) ([]string, bool, error) {
 		c, ok := y.X.(*ast.CallExpr)
 		if !ok {
 			return nil, false, nil
+		}
+		// delete(c.children, k) on the receiver being threaded / a local builder
+		if id, ok := c.Fun.(*ast.Ident); ok && len(c.Args) == 2 {
+			if bi, ok := x.p.info.Uses[id].(*types.Builtin); ok && bi.Name() == "delete" {
+				fs, ok := c.Args[0].(*ast.SelectorExpr)
+				if !ok || fs.Sel.Name != "children" || domKind(x.typeOf(fs.X)) != "cont" {
+					return nil, true, x.errf(c, "delete on something other than the children of a container builder")
+				}
+				n, _, err := x.localBuilder(fs.X, "delete")
+				if err != nil {
+					return nil, true, err
+				}
+				bk, k, err := x.expr(c.Args[1])
+				if err != nil {
+					return nil, true, err
+				}
+				return append(bk, fmt.Sprintf("let %s := (GoDom.setChildren %s (GoDom.mapDelete (GoDom.children %s) %s))", n, n, n, k)), true, nil
+			}
 		}
 		// slices.Reverse(xs) on a local slice
 		if fn := x.calleeFunc(c); fn != nil && fn.Pkg() != nil && fn.Pkg().Path() == "slices" && fn.Name() == "Reverse" && len(c.Args) == 1 {
